@@ -24,6 +24,8 @@ CFG = dict(
               "a session that stays up across the release is sent every held prefix exactly once (early-session scenarios)",
               "concurrent (part=conc, judged at quiescence, valid for every linearisation): last NlriChange per prefix on the registered peer channel == the RIB's path list; "
               "held prefixes not touched by a concurrent thread announced exactly once; restarting flag cleared and no shard still deferring",
+              "session ends inside the histories do what session_loop does to the tables (unregister_peer: GR families marked stale, the others dropped; "
+              "not GR-eligible: all dropped; the next session uses a new Source): nothing of a held family is announced by it, and held/release/exactly-once/terminates keep being judged afterwards",
               "non-GR peers never block",
               "terminates: nothing pending => Global.selection_deferral (restarting flag) cleared, later inserts announced immediately on every shard; flag not cleared while a family must be held",
               "no panic"],
@@ -47,7 +49,12 @@ CFG = dict(
                          "conc:trials": 1000, "conc:trials-2-shards": 400, "conc:trials-4-shards": 400,
                          "conc:overlapping-trials": 900, "conc:session-ops-between-shard-releases": 2500,
                          "conc:final-view-prefixes-agree": 20000, "conc:untouched-prefix-announced-once": 8000,
-                         "conc:shard-probes-announced": 5000}),
+                         "conc:shard-probes-announced": 5000, "conc:session-flaps": 300,
+                         # session ends on the table side (unregister_peer: drop / stale marking) inside the histories
+                         "drop:sessions-gr-eligible": 6000, "drop:sessions-not-gr-eligible": 2500, "drop:sessions-without-gr": 1400,
+                         "drop:held-family-shard-table-emptied-by-the-drop": 2000, "drop:held-family-shard-table-already-empty": 4500,
+                         "drop:held-family-shard-table-shared": 2300, "drop:held-or-released-path-marked-stale": 5500,
+                         "insert:held-back-after-drop-emptied-the-shard-table": 8000, "random:4-shards": 250}),
     # quick: coupled depth 4 over the full alphabet up to peer renaming (all peers configured alike),
     # bare machine depth 4 over every sequence, coupled depth 3 for asymmetric configurations, random
     quick=[e2("exh4", _T, 10, 300, part="exh", depth=4, cfg="full", nshards=10, sym=1),
